@@ -5,6 +5,7 @@ import (
 	"encoding/binary"
 	"encoding/gob"
 	"fmt"
+	"math"
 	"reflect"
 	"sync"
 	"time"
@@ -964,6 +965,11 @@ type Content struct {
 	// Uint32Slice is a specialized byte slice designed for storing and managing 4-byte (uint32) values in a
 	// compact and efficient format.
 	Uint32Slice *Uint32Slice
+	// ZeroValueOf is only set in the stored (gob) form of a treasure: gob does not transmit
+	// zero values, not even behind a pointer, so a typed 0, false, "" or empty byte array
+	// would come back as "no content". It names the type whose zero value was stored, so that
+	// LoadFromByte can restore it. It is always ContentTypeVoid (0) in memory.
+	ZeroValueOf ContentType
 }
 
 // TreasureStatus is an enumeration type representing the status of a "Treasure" operation in the Swamp.
@@ -1561,14 +1567,99 @@ func (t *treasure) ConvertToByte(guardID guard.ID) ([]byte, error) {
 		newObj.treasure.Content = t.treasure.Content
 	}
 
+	// gob drops zero values: remember the type of a typed zero value in the stored form
+	toEncode := t.treasure
+	if zeroOf := zeroValueType(t.treasure.Content); zeroOf != ContentTypeVoid {
+		storedContent := *t.treasure.Content
+		storedContent.ZeroValueOf = zeroOf
+		toEncode.Content = &storedContent
+	}
+
 	var buf bytes.Buffer
 	encoder := gob.NewEncoder(&buf)
-	err := encoder.Encode(t.treasure)
+	err := encoder.Encode(toEncode)
 	if err != nil {
 		return nil, err
 	}
 	return buf.Bytes(), nil
 
+}
+
+// zeroValueType returns the content type of c when c holds the zero value of that type
+// (which gob would not transmit), and ContentTypeVoid otherwise.
+func zeroValueType(c *Content) ContentType {
+	if c == nil || c.Void {
+		return ContentTypeVoid
+	}
+	switch {
+	case c.Uint8 != nil && *c.Uint8 == 0:
+		return ContentTypeUint8
+	case c.Uint16 != nil && *c.Uint16 == 0:
+		return ContentTypeUint16
+	case c.Uint32 != nil && *c.Uint32 == 0:
+		return ContentTypeUint32
+	case c.Uint64 != nil && *c.Uint64 == 0:
+		return ContentTypeUint64
+	case c.Int8 != nil && *c.Int8 == 0:
+		return ContentTypeInt8
+	case c.Int16 != nil && *c.Int16 == 0:
+		return ContentTypeInt16
+	case c.Int32 != nil && *c.Int32 == 0:
+		return ContentTypeInt32
+	case c.Int64 != nil && *c.Int64 == 0:
+		return ContentTypeInt64
+	case c.Float32 != nil && math.Float32bits(*c.Float32) == 0:
+		return ContentTypeFloat32
+	case c.Float64 != nil && math.Float64bits(*c.Float64) == 0:
+		return ContentTypeFloat64
+	case c.String != nil && *c.String == "":
+		return ContentTypeString
+	case c.Boolean != nil && !*c.Boolean:
+		return ContentTypeBoolean
+	case c.ByteArray != nil && len(c.ByteArray) == 0:
+		return ContentTypeByteArray
+	case c.Uint32Slice != nil && len(*c.Uint32Slice) == 0:
+		return ContentTypeUint32Slice
+	}
+	return ContentTypeVoid
+}
+
+// restoreZeroValue puts back the typed zero value named by the stored form's ZeroValueOf.
+func restoreZeroValue(c *Content) {
+	if c == nil || c.ZeroValueOf == ContentTypeVoid {
+		return
+	}
+	switch c.ZeroValueOf {
+	case ContentTypeUint8:
+		c.Uint8 = new(uint8)
+	case ContentTypeUint16:
+		c.Uint16 = new(uint16)
+	case ContentTypeUint32:
+		c.Uint32 = new(uint32)
+	case ContentTypeUint64:
+		c.Uint64 = new(uint64)
+	case ContentTypeInt8:
+		c.Int8 = new(int8)
+	case ContentTypeInt16:
+		c.Int16 = new(int16)
+	case ContentTypeInt32:
+		c.Int32 = new(int32)
+	case ContentTypeInt64:
+		c.Int64 = new(int64)
+	case ContentTypeFloat32:
+		c.Float32 = new(float32)
+	case ContentTypeFloat64:
+		c.Float64 = new(float64)
+	case ContentTypeString:
+		c.String = new(string)
+	case ContentTypeBoolean:
+		c.Boolean = new(bool)
+	case ContentTypeByteArray:
+		c.ByteArray = []byte{}
+	case ContentTypeUint32Slice:
+		c.Uint32Slice = &Uint32Slice{}
+	}
+	c.ZeroValueOf = ContentTypeVoid
 }
 
 func (t *treasure) LoadFromByte(guardID guard.ID, b []byte, fileName string) error {
@@ -1586,6 +1677,7 @@ func (t *treasure) LoadFromByte(guardID guard.ID, b []byte, fileName string) err
 	if err != nil {
 		return err
 	}
+	restoreZeroValue(t.treasure.Content)
 	// filenév beállítása
 	t.treasure.FileName = &fileName
 	return nil
